@@ -558,7 +558,8 @@ class Id(rigid.Id, Diagram):
 class Sum(monoidal.Sum, Diagram):
     """ Sums of tensor diagrams. """
     def eval(self, contractor=None):
-        return sum(term.eval(contractor=contractor) for term in self.terms)
+        return sum((term.eval(contractor=contractor) for term in self.terms),
+                   Tensor.zeros(Dim.upgrade(self.dom), Dim.upgrade(self.cod)))
 
 
 Diagram.id = Id
